@@ -22,10 +22,10 @@ def main():
     props = [c["property_id"] for c in man["checks"]]
     out = {}
     rc_all = 0
-    for d in sorted(glob.glob(os.path.join(VERIF, "seeded", "*", "patch.diff"))):
+    jobs = int(sys.argv[sys.argv.index("--jobs") + 1]) if "--jobs" in sys.argv else 6
+
+    def one(d):
         sid = os.path.basename(os.path.dirname(d))
-        if only and only not in sid:
-            continue
         target = json.load(open(os.path.join(os.path.dirname(d), "meta.json"))).get("property", sid[:3])
         w = tempfile.mkdtemp(prefix="seedrun-")
         ev = tempfile.mkdtemp(prefix="seedrun-ev-")
@@ -34,10 +34,8 @@ def main():
                            check=True, stdout=subprocess.DEVNULL, stderr=subprocess.DEVNULL)
             r = subprocess.run(["git", "-C", w, "apply", d], stderr=subprocess.PIPE, text=True)
             if r.returncode != 0:
-                out[sid] = {"error": "patch does not apply: " + r.stderr[-200:]}
-                print("%-8s ERROR patch does not apply" % sid)
-                continue
-            env = dict(os.environ, VERIF_EVIDENCE_DIR=ev, VERIF_REPLAY_DIR=ev)
+                return sid, {"error": "patch does not apply: " + r.stderr[-200:]}
+            env = dict(os.environ, VERIF_EVIDENCE_DIR=ev, VERIF_REPLAY_DIR=ev, VERIF_NO_SELFTEST="1")
             fired = {}
             for pid in props:
                 rr = subprocess.run([os.path.join(VERIF, "check"), pid, "--repo", w], cwd=VERIF,
@@ -47,19 +45,27 @@ def main():
                     fired[pid] = sorted(set(v["key"] for x in e["coverage"]["rules"] for v in x["violations"]))
                 elif rr.returncode != 0:
                     fired[pid] = ["CHECK-ERROR rc=%d" % rr.returncode]
-            caught = target in fired
-            out[sid] = {"target": target, "caught_by_target_check": caught, "fired": fired}
-            print("%-8s target=%s %s  fired=%s" % (sid, target, "CAUGHT" if caught else "MISSED",
-                                                    {k: v[:2] for k, v in fired.items()}))
-            if not caught:
-                rc_all = 1
+            return sid, {"target": target, "caught_by_target_check": target in fired, "fired": fired}
         finally:
             subprocess.run(["git", "-C", "/repo", "worktree", "remove", "--force", w],
                            stdout=subprocess.DEVNULL, stderr=subprocess.DEVNULL)
             shutil.rmtree(w, ignore_errors=True)
             shutil.rmtree(ev, ignore_errors=True)
-            subprocess.run(["git", "-C", "/repo", "worktree", "prune"],
-                           stdout=subprocess.DEVNULL, stderr=subprocess.DEVNULL)
+    from concurrent.futures import ThreadPoolExecutor
+    ds = [d for d in sorted(glob.glob(os.path.join(VERIF, "seeded", "*", "patch.diff")))
+          if not only or only in os.path.basename(os.path.dirname(d))]
+    with ThreadPoolExecutor(max_workers=jobs) as ex:
+        for sid, res in ex.map(one, ds):
+            out[sid] = res
+            if "error" in res:
+                print("%-8s ERROR %s" % (sid, res["error"]))
+                rc_all = 1
+                continue
+            print("%-8s target=%s %s  fired=%s" % (sid, res["target"], "CAUGHT" if res["caught_by_target_check"] else "MISSED",
+                                                    {k: v[:2] for k, v in res["fired"].items()}))
+            if not res["caught_by_target_check"]:
+                rc_all = 1
+    subprocess.run(["git", "-C", "/repo", "worktree", "prune"], stdout=subprocess.DEVNULL, stderr=subprocess.DEVNULL)
     if not only:
         json.dump(out, open(os.path.join(VERIF, "seeded", "RESULTS.json"), "w"), indent=1)
     return rc_all
